@@ -514,3 +514,25 @@ PLANS["C13"] = dict(
         validate=dict(module="Trace_TrustStoreFS", cfg=trace_cfg()),
     )],
 )
+
+# ------------------------------------------------------------------ C04
+PLANS["C04"] = dict(
+    level_text="A distinguished name is an abstract partial map attribute -> value (order, spacing and the S/ST alias do not exist at that level); "
+               "TLC checks the identity stage of the staged verifier model against the declarative statement for leaf subjects of several "
+               "shapes (plain, many attributes, escaped separator; uninterpretable: multi-valued RDN, duplicate attribute, missing ST, "
+               "non-standard OID) and every identity list a valid policy can carry, built relative to the leaf (equal, strict subset, strict "
+               "superset, one-character near misses, case variant, the intermediate's / root's subject, disjoint, unknown prefix, wildcard); "
+               "every case is replayed with really minted chains having those subjects and identities rendered in several textual forms.",
+    level_note="Trusted: TLC, crypto/x509 subject rendering and go-ldap DN parsing as used by the code. An identity attribute with an EMPTY value "
+               "is judged by the wording 'every attribute of that identity occurs with an equal value'.",
+    rule="cases = (leaf shape, identity list, level) of MC_Verifier_C04; non-trivial = no wildcard in the list",
+    exhaustive=True,
+    phases=[dict(
+        name="identities",
+        gen=dict(module="MC_Verifier_C04",
+                 cfg=lambda tier, seed: mc_cfg(["Inv_C04", "Inv_C04_CA", "Inv_Exact", "Inv_Emit"], consts=["MaxIds = 3" if tier == "thorough" else "MaxIds = 2", "WithEmptyAttr = TRUE"]),
+                 select=slicer(60000)),
+        drive=dict(driver="verifier"),
+        validate=dict(module="Trace_Verifier", cfg=trace_cfg(["verdict", "outcome", "authenticity", "results", "actions"])),
+    )],
+)
